@@ -147,6 +147,9 @@ WITNESSES = [
      "expect": {"stdout": "True\nFalse\nTrue\nTrue\nTrue\nFalse\nFalse"}, "note": "structurally equal containers built separately (different literal order, different recorded element types) are equal"},
     {"match": r"steps\.eval_assign\.safety", "kind": "run", "props": ["C02"], "input": "println = 1", "expect": {}, "note": "assigning to a name that is only bound in the namespace must raise an error, not panic"},
 ]
+sys.path.insert(0, os.path.dirname(os.path.abspath(__file__)))
+import scope_programs  # noqa: E402
+WITNESSES += scope_programs.witnesses(r"steps\.", ["C06"])
 
 GLUE2 = """
 impl Clone for Value {
